@@ -19,7 +19,7 @@ from .detloop import DetLoop, FakeTransport
 
 INVS = ['NeverPoisoned', 'NoEscapeHonest', 'HonestCompletes', 'Terminates', 'ClosedOnFailure']
 TINVS = ['TNeverPoisoned', 'TNoFileLeft', 'THonestCompletes', 'TTerminates', 'TClosedOnFailure', 'TNoLengthPoison',
-         'TServerOnlyVerified', 'TServerClosesGarbage', 'TServerStillServes']
+         'TServerOnlyVerified', 'TServerServesAll', 'TServerClosesGarbage', 'TServerStillServes']
 PEER_TIMEOUT = 10.0
 
 
@@ -343,7 +343,7 @@ def parse_sent(data, blobs_by_hash):
 
 SERVER_STREAMS = [
     ['R'], ['R1', 'R2'], ['R', 'R'], ['Rn'], ['Ru'], ['Xb'], ['X'], ['X', 'X'], ['Big'], ['Jn'], ['R', 'Xb'], ['Xb', 'R'],
-    ['R1'], ['R', 'Rbig'], ['Rbig', 'R'], ['Jn', 'R'],
+    ['R1'], ['R', 'Rbig'], ['Rbig', 'R'], ['Jn', 'R'], ['R1', 'R2', 'R'], ['R1', 'R2', 'Rbig', 'R'], ['R', 'R1', 'R2'], ['R1', 'R2', 'R1', 'R2'],
 ]
 
 
@@ -403,8 +403,12 @@ def server_leg(ctx, recs):
                 served_again = any(x['kind'] == 'blob' and x['payload_right'] and x['length_right'] for x in sent2)
                 verdicts = parse_sent(sent, by_hash)
                 garbage = any(u in ('Xb', 'Big', 'Jn') for u in stream)
+                honest_prefix = list(itertools.takewhile(lambda u: u in ('R', 'Rbig', 'R1', 'R2', 'Rn', 'Ru'), stream))
+                expected = sum(1 for u in honest_prefix if u in ('R', 'Rbig', 'R2'))
+                served = sum(1 for v in verdicts if v['kind'] == 'blob' and v['payload_right'] and v['length_right'])
                 recs.append({'kind': 'server', 'stream': stream, 'blobs_sent': [v for v in verdicts if v['kind'] == 'blob'],
                              'stray': any(v['kind'] == 'stray-bytes' for v in verdicts), 'garbage': garbage,
+                             'expected_serves': expected, 'served': served,
                              'first_garbage_closed': closed_now if garbage else True, 'closed_at_ms': closed_at,
                              'idle_limit_ms': 30_000 + 60_000, 'escaped': escaped + esc2, 'served_again': served_again,
                              'sent_for_unheld': any(u in ('Rn', 'Ru') for u in stream) and any(v['kind'] == 'blob' for v in verdicts) and
